@@ -218,7 +218,8 @@ outer:
 
 			callFrame := self.callFrame()
 			fn, found := (*self.Program)[callFrame.Function]
-			if !found || len(fn) == 0 {
+			// An empty routine (e.g. the initializer of an imported module without globals) returns right away below.
+			if !found {
 				panic(fmt.Sprintf("Cannot execute instructions of non-existent routine: %s", callFrame.Function))
 			}
 
